@@ -83,3 +83,24 @@ Theorem C12_datagram_for_the_old_binding_vanishes_after_reopen :
   forward v (S fuel) now p w2 = (w2, []).
 Proof. exact stale_datagram_vanishes_after_reopen. Qed.
 Print Assumptions C12_datagram_for_the_old_binding_vanishes_after_reopen.
+
+(* ---- the same for a TCP socket whose connection is already gone: stragglers of the previous
+   connection never reach the re-used socket (Proofs/ReopenProofs.v) ---- *)
+Theorem C12_tcp_reopen_gets_a_fresh_forwarder :
+  forall cx s v4 w f,
+  t_chan (get_tcp w s) = None -> t_fwd (get_tcp w s) = Some f -> f < w_next_sink w ->
+  let w2 := fst (tcp_open cx s v4 w) in
+  mget SNone (w_sinks w2) f = SFwd None /\
+  t_fwd (get_tcp w2 s) = Some (w_next_sink w) /\
+  mget SNone (w_sinks w2) (w_next_sink w) = SFwd (Some (OTcp s)) /\
+  w_next_sink w <> f.
+Proof. exact tcp_reopen_gets_a_fresh_forwarder. Qed.
+Print Assumptions C12_tcp_reopen_gets_a_fresh_forwarder.
+
+Theorem C12_straggler_of_the_previous_connection_vanishes :
+  forall cx s v4 w f v now fuel p,
+  t_chan (get_tcp w s) = None -> t_fwd (get_tcp w s) = Some f -> f < w_next_sink w -> p_hops p = [f] ->
+  let w2 := fst (tcp_open cx s v4 w) in
+  forward v (S fuel) now p w2 = (w2, []).
+Proof. exact straggler_vanishes_after_tcp_reopen. Qed.
+Print Assumptions C12_straggler_of_the_previous_connection_vanishes.
